@@ -114,7 +114,9 @@ const plainRunes = "abcxyzABXZ019 _+-*(),;é"
 
 func (s *shaper) rune1() rune {
 	if s.r.Intn(6) == 0 {
-		return []rune{'k', 'K', 0x212a, 's', 0x17f, 'İ', 'ı', 'Δ', 'δ', 'ß', 0x1f600, 'Ж', 'ж'}[s.r.Intn(13)]
+		// (the last six are NOT letters but have case mappings: Nl roman numerals, So circled letters, Mn U+0345)
+		pool := []rune{'k', 'K', 0x212a, 's', 0x17f, 'İ', 'ı', 'Δ', 'δ', 'ß', 0x1e9e, 0x1f600, 'Ж', 'ж', 0x2167, 0x2177, 0x24b6, 0x24d0, 0x345, 0x399}
+		return pool[s.r.Intn(len(pool))]
 	}
 	rs := []rune(plainRunes)
 	return rs[s.r.Intn(len(rs))]
@@ -634,7 +636,14 @@ func alphabet(g *ast.Grammar) []rune {
 	seen := map[rune]bool{}
 	var out []rune
 	add := func(c rune) {
-		for _, x := range []rune{c, unicode.ToLower(c), unicode.ToUpper(c)} {
+		xs := []rune{c, unicode.ToLower(c), unicode.ToUpper(c)}
+		if c >= 0 && c <= unicode.MaxRune {
+			// the whole case-folding orbit: a rune can be the lower case of another without being its own upper case
+			for f := unicode.SimpleFold(c); f != c; f = unicode.SimpleFold(f) {
+				xs = append(xs, f)
+			}
+		}
+		for _, x := range xs {
 			if x >= 0 && x <= unicode.MaxRune && !(0xd800 <= x && x < 0xe000) && !seen[x] {
 				seen[x] = true
 				out = append(out, x)
